@@ -27,16 +27,26 @@ func (d *PathDecoder) bodySchemaCandidates(ctx context.Context, body *hclsyntax.
 		if schema.Extensions.Count {
 			// check if count attribute is already declared, so we don't
 			// suggest a duplicate
-			if _, ok := body.Attributes["count"]; !ok {
+			_, declared := body.Attributes["count"]
+			if !declared && (len(prefix) == 0 || strings.HasPrefix("count", string(prefix))) {
+				if uint(count) >= d.maxCandidates {
+					return candidates
+				}
 				candidates.List = append(candidates.List, attributeSchemaToCandidate(ctx, "count", schemahelper.CountAttributeSchema(), editRng))
+				count++
 			}
 		}
 
 		if schema.Extensions.ForEach {
 			// check if for_each attribute is already declared, so we don't
 			// suggest a duplicate
-			if _, present := body.Attributes["for_each"]; !present {
+			_, declared := body.Attributes["for_each"]
+			if !declared && (len(prefix) == 0 || strings.HasPrefix("for_each", string(prefix))) {
+				if uint(count) >= d.maxCandidates {
+					return candidates
+				}
 				candidates.List = append(candidates.List, attributeSchemaToCandidate(ctx, "for_each", schemahelper.ForEachAttributeSchema(), editRng))
+				count++
 			}
 		}
 	}
